@@ -549,8 +549,11 @@ class Differ:
         parent: Any = kwargs.pop("rhs_parent", None)
         parentref: Any = kwargs.pop("parentref", None)
         node_coord = NodeCoords(rhs, parent, parentref)
-        if len(rhs) > 0:
-            if isinstance(rhs[0], CommentedMap):
+        # An empty RHS list still deletes every LHS element; let the first LHS
+        # element decide how the lists are to be compared in that case.
+        exemplar = rhs if len(rhs) > 0 else lhs
+        if len(exemplar) > 0:
+            if isinstance(exemplar[0], CommentedMap):
                 # This list is an Array-of-Hashes
                 self._diff_arrays_of_hashes(path, lhs, rhs, node_coord)
             else:
